@@ -53,6 +53,19 @@ func genC18(seed uint64, run int, tier string) Scenario {
 				t = append(t, peer.Tok{S: "\n"})
 			}
 		}
+		if r.IntN(8) == 0 {
+			// a long listing (digits only: no trigger word) in front of or behind the words: the
+			// accumulated output grows far beyond the prompt search depth
+			var fill []peer.Tok
+			for k := between(r, 15, 60); k > 0; k-- {
+				fill = append(fill, peer.Tok{S: word(r, digits+" ", 20, 70)}, peer.Tok{S: "\n"})
+			}
+			if r.IntN(2) == 0 {
+				t = append(fill, t...)
+			} else {
+				t = append(append(t, peer.Tok{S: "\n"}), fill[:len(fill)-1]...)
+			}
+		}
 
 		return t
 	}
